@@ -7,11 +7,18 @@ def replay(args, outdir):
     # real pysam reads need an MD tag for get_aligned_pairs(with_seq=True): emulate "all match" like FakeRead does
     def mk(**kw):
         r = pysam_mk(**kw)
-        r.set_tag('MD', str(len(kw['seq'])))
+        md, run = '', 0
+        for op, l in kw['cigartuples']:
+            if op == 0:
+                run += l
+            elif op == 2:
+                md += '%d^%s' % (run, 'A' * l)
+                run = 0
+        r.set_tag('MD', md + str(run))
         return r
     H.FakeRead = mk
     a, lemma = args['cex'], args['lemma']
-    fn = {'L1_pick_best_base_call': H._l1_pick_best, 'L2_mate_overlap': H._l2_mates, 'L2b_dovetail_window': H._l2b_dovetail, 'L3_majority': H._l3_majority, 'L4_order_duplication': H._l4_order}[lemma]
+    fn = {'L1_pick_best_base_call': H._l1_pick_best, 'L2_mate_overlap': H._l2_mates, 'L2b_dovetail_window': H._l2b_dovetail, 'L3_majority': H._l3_majority, 'L3b_majority_indel': H._l3b_majority_indel, 'L4_order_duplication': H._l4_order}[lemma]
     try:
         ok = fn(**a)
     except Exception as e:
